@@ -57,7 +57,7 @@
 #define NH 6
 #endif
 #ifndef PAYMAX
-#define PAYMAX 24
+#define PAYMAX 8   /* payload bytes kept for classification (OK / ERROR); harnesses that compare texts raise it */
 #endif
 #ifndef SCEN_EXTRA
 #define SCEN_EXTRA
@@ -298,10 +298,14 @@ static int io_write(char ch)
         ON_WRITE_ATTEMPT((unsigned char)ch);
         if ((SYM_SCHED_W || W.sched_w) && !(W.k >= 0 && W.k < N && S.sw[W.k]))
                 return 0;
+#ifndef NO_OUTLOG
         if (W.out_n < OUTMAX)
                 G_out[W.out_n] = (uint8_t)ch;
+#endif
         W.out_n++;
+#ifndef NO_UNITS
         unit_feed((unsigned char)ch);
+#endif
         ON_WRITE_ACCEPTED((unsigned char)ch);
         return 1;
 }
@@ -318,6 +322,12 @@ static void hlog(const struct cat_command *cmd, int kind)
 static cat_return_state next_code(void)
 {
         unsigned char b = (W.rc_n < NRC) ? S.rc[W.rc_n] : 0;
+#ifdef EVENT_CODE
+        /* handlers of the event commands (index >= EVENT_FIRST_CMD) return a code fixed per job: a symbolic code would
+         * keep every arm of the event FSM's return-code switch (incl. the excluded HOLD arm) alive in symbolic execution */
+        if (W.hl_n > 0 && W.hl_n <= NH && W.hl_cmd[W.hl_n - 1] >= EVENT_FIRST_CMD)
+                return (cat_return_state)(EVENT_CODE);
+#endif
         W.rc_n++;
         return CODESET(b);
 }
